@@ -103,13 +103,15 @@ func TestC20(t *testing.T) {
 				toQi := c.orig.To().IsInQiLedgerScope()
 				tenth := new(big.Int).Div(new(big.Int).Mul(V, big.NewInt(10)), big.NewInt(100))
 				var implied, floor *big.Int
-				if toQi {
-					implied = misc.QuaiToQi(pb, np.ExchangeRate(), pb.MinerDifficulty(), V)
-					floor = misc.QuaiToQi(pb, np.ExchangeRate(), pb.MinerDifficulty(), tenth)
-				} else {
-					implied = misc.QiToQuai(pb, np.ExchangeRate(), pb.MinerDifficulty(), V)
-					floor = misc.QiToQuai(pb, np.ExchangeRate(), pb.MinerDifficulty(), tenth)
+				qiR := misc.CalculateQiReward(pb.WorkObjectHeader(), pb.MinerDifficulty())
+				quaiR := misc.CalculateQuaiReward(pb.WorkObjectHeader(), pb.MinerDifficulty(), np.ExchangeRate())
+				ratio := func(x *big.Int) *big.Int { // the rate is the ratio of the two block rewards at that difficulty; rounded down
+					if toQi {
+						return new(big.Int).Div(new(big.Int).Mul(x, qiR), quaiR)
+					}
+					return new(big.Int).Div(new(big.Int).Mul(x, quaiR), qiR)
 				}
+				implied, floor = ratio(V), ratio(tenth)
 				if Vp.Cmp(implied) > 0 {
 					forkSide := "post-slip-change"
 					if r.Regime.ConversionSlipChangeBlock > w.Blocks[c.primeHash].Number+1000 {
@@ -305,6 +307,39 @@ func rateTable(fail func(class, witness, detail string)) {
 					}
 					fail("rate-fork-sides", fmt.Sprintf("fork=%s side=%s", f.name, side), fmt.Sprintf("with identical difficulty, rate and share counts the conversion of %v qits gives %v at prime terminus %d and %v at %d; %v its give %v and %v", qi, a1, pair[0], a2, pair[1], quai, b1, b2))
 					return
+				}
+			}
+			// the credited amount never exceeds amount x (reward of the target ledger) / (reward of the origin ledger), rounded
+			// down - in particular not for amounts just below a whole unit of the target ledger
+			for _, ptn := range []uint64{f.at - 1, f.at} {
+				wo := mk(ptn, variant)
+				for _, r8 := range []*big.Int{rate, big.NewInt(1_000_000), big.NewInt(3)} { // mainnet-scale and low its-per-qit ratios
+					qiR, quaiR := misc.CalculateQiReward(wo.WorkObjectHeader(), diff), misc.CalculateQuaiReward(wo.WorkObjectHeader(), diff, r8)
+					for _, m := range []int64{1, 7, 1000, 1_000_000} {
+						// the largest Quai amount worth strictly less than m qits
+						x := new(big.Int).Mul(big.NewInt(m), quaiR)
+						x.Add(x, new(big.Int).Sub(qiR, common.Big1)).Div(x, qiR).Sub(x, common.Big1)
+						if x.Sign() <= 0 {
+							continue
+						}
+						bound := new(big.Int).Div(new(big.Int).Mul(x, qiR), quaiR)
+						got := misc.QuaiToQi(wo, r8, diff, x)
+						simkit.Global.Inc("rate_rounding_cases")
+						if got.Cmp(bound) > 0 {
+							fail("rate-rounding", "direction=quai-to-qi", fmt.Sprintf("%v its convert to %v qits; at %v qits per %v its (block reward ratio at prime terminus %d) they are worth %v", x, got, qiR, quaiR, ptn, bound))
+							return
+						}
+						q := new(big.Int).Mul(big.NewInt(m), qiR)
+						q.Add(q, new(big.Int).Sub(quaiR, common.Big1)).Div(q, quaiR).Sub(q, common.Big1)
+						if q.Sign() <= 0 {
+							continue
+						}
+						bound = new(big.Int).Div(new(big.Int).Mul(q, quaiR), qiR)
+						if got := misc.QiToQuai(wo, r8, diff, q); got.Cmp(bound) > 0 {
+							fail("rate-rounding", "direction=qi-to-quai", fmt.Sprintf("%v qits convert to %v its; at %v its per %v qits they are worth %v", q, got, quaiR, qiR, bound))
+							return
+						}
+					}
 				}
 			}
 			for _, ptn := range []uint64{f.at - 1, f.at, f.at + 1} {
